@@ -2750,11 +2750,26 @@ class Cond(Generic[X, R], GFI[X, R]):
         (check, *rest_args) = args
         new_tr, w, discard = self.callee.update(tr.trs[0], x, *rest_args, **kwargs)
         new_tr_, w_, discard_ = self.callee_.update(tr.trs[1], x, *rest_args, **kwargs)
-        # Merge discarded values
-        merged_discard, _ = self.callee.merge(discard, discard_)
+        # The density ratio is between the branch visible after the update and the
+        # branch that was visible before it; they differ when `check` flips, in
+        # which case the old score of the newly taken branch must be swapped for
+        # the old score of the branch that was actually visible.
+        old_score, old_score_ = map(get_score, tr.trs)
+        weight = (
+            jnp.where(check, w, w_)
+            + tr.get_score()
+            - jnp.where(check, old_score, old_score_)
+        )
+        # The discard holds the values that were visible in the old trace.
+        if discard is None:
+            merged_discard = discard_
+        elif discard_ is None:
+            merged_discard = discard
+        else:
+            merged_discard, _ = self.callee.merge(discard, discard_, tr.check)
         return (
             CondTr(self, check, [new_tr, new_tr_]),
-            jnp.where(check, w, w_),
+            weight,
             merged_discard,
         )
 
@@ -2775,7 +2790,8 @@ class Cond(Generic[X, R], GFI[X, R]):
         elif discard_ is None:
             merged_discard = discard
         else:
-            merged_discard, _ = self.callee.merge(discard, discard_)
+            # Both branches discarded something: keep the values that were visible.
+            merged_discard, _ = self.callee.merge(discard, discard_, tr.check)
         return (
             CondTr(self, check, [new_tr, new_tr_]),
             jnp.where(check, w, w_),
